@@ -1,6 +1,6 @@
 /-
 C12, the field set of the result of a merge (accepted repeat-free operands whose keyed lists carry
-scalar key fields): every member of the result's field set is a member of the left or of the right
+canonical key fields, `keysCanon`: implied by `keysScalar` and by `canon`): every member of the result's field set is a member of the left or of the right
 operand's field set; every member of the right operand's field set is a member of the result's when
 the right operand has no repeated map key and no null / empty-map entry under a declared field.
 -/
